@@ -30,9 +30,12 @@ def run_ensemble(rng, obs):
     dim = rng.randint(1, 4)
     which = rng.choice(['lattice', 'lattice', 'buckshot', 'sparsity'])
     nested = rng.choice(['nm', 'nm', 'powell', 'de'])
-    spec = K.gen_cost(rng, dim, ['sphere', 'illquad', 'rosen', 'abs', 'maxnorm'])
+    # (flat-bottomed and piecewise-constant objectives: several members reach EXACTLY the same best energy, often exactly 0.0)
+    spec = K.gen_cost(rng, dim, ['sphere', 'illquad', 'rosen', 'abs', 'maxnorm', 'plateau', 'step'])
     raw = K.make_cost(spec)
     box = K.gen_box(rng, dim, None, shape='finite')
+    if spec[0] in ('plateau', 'step') and rng.random() < 0.7:
+        box = {'lo': [c - 5.0 for c in spec[1]], 'hi': [c + 5.0 for c in spec[1]], 'shape': 'finite'}
     cons = K.gen_constraint(rng, dim, box) if rng.random() < 0.35 else None
     pen = K.gen_penalty(rng, dim) if rng.random() < 0.3 else None
     maxiter = rng.choice([2, 5, 15, 40]); maxfun = rng.choice([None, None, 60])
